@@ -350,6 +350,13 @@ def structural_calls():
             t = src.get_mpo_tensor(k, transformed=False)
             if kind == "shape-mismatch" and k == 2:
                 t = t[:, :, :3] if t.ndim == 3 else t[:, :, :3, :3]
+            if kind == "out-leg-mismatch" and k == 1:
+                if t.ndim == 3:     # expand the delta and cut the output leg only: the chain's physical leg becomes 3
+                    full = np.zeros(t.shape + (t.shape[2],), dtype=t.dtype)
+                    for i_ in range(t.shape[2]):
+                        full[:, :, i_, i_] = t[:, :, i_]
+                    t = full
+                t = t[:, :, :, :3]
             pt.set_mpo_tensor(k, t)
         for k in range(len(src) + 1):
             if kind == "missing-cap" and k >= 2:
@@ -375,7 +382,22 @@ def structural_calls():
         xs = np.ones((6, 1))
         return sg(psys, M.RHO_GEN2, M.RHO_PLUS.T.copy(), [broken_pt("shape-mismatch")], xs, progress_type=ptype)
 
-    return {f.__name__: f for f in (cd_missing_cap, cd_shape_mismatch, cdf_missing_cap, grad_shape_mismatch)}
+    def tebd_mt_shape_mismatch(c, ptype):
+        # a tensor operation fails INSIDE a gate layer of the multithread back-end (worker of the executor)
+        chain = oq.SystemChain(hilbert_space_dimensions=[2, 2, 2, 2])
+        for s_ in range(4):
+            chain.add_site_hamiltonian(site=s_, hamiltonian=0.5 * M.SX)
+        for s_ in range(3):
+            chain.add_nn_hamiltonian(site=s_, hamiltonian_l=0.3 * M.SZ, hamiltonian_r=M.SZ)
+        t = oq.PtTebd(oq.AugmentedMPS([M.RHO_GEN2, M.RHO_PLUS, M.RHO_GEN2, M.RHO_PLUS]), chain,
+                      [None, broken_pt("out-leg-mismatch"), None, None],
+                      oq.PtTebdParameters(dt=0.1, order=2, epsrel=1e-7), dynamics_sites=[0],
+                      backend_config={"parallel": "multithread"})
+        c.keep.append(t)
+        return t.compute(3, progress_type=ptype)
+
+    return {f.__name__: f for f in (cd_missing_cap, cd_shape_mismatch, cdf_missing_cap, grad_shape_mismatch,
+                                    tebd_mt_shape_mismatch)}
 
 
 def fault_case(args):
@@ -395,10 +417,13 @@ def fault_case(args):
     raised = None
     before = set(threading.enumerate())
     result = None
+    held = None
     try:
         result = calls[api](c, ptype)       # kept alive, like a user who holds on to what the call returned
     except BaseException as ex:  # noqa
         raised = type(ex).__name__
+        held = ex       # the caller keeps the exception (with its traceback and frames) while the census is taken, as
+        #                 pytest.raises, a logger or an interactive session do
     finally:
         sys.stdout = old_out
         U.Timer = saved
@@ -408,6 +433,7 @@ def fault_case(args):
     if left:
         _time.sleep(0.05)       # threads that are merely finishing are not a leak
         left = [t for t in threading.enumerate() if t not in before and t.is_alive()]
+    del held
     return {"raised": raised, "armed": armed, "timers": len(RegTimer.registry), "count": c.n, "writes": out.n,
             "threads_left": [t.name for t in left]}
 
